@@ -833,3 +833,514 @@ func mustPassBlock(fn *ssa.Function, via, target *ssa.BasicBlock) bool {
 	}
 	return true
 }
+
+// ruleLoopCarriedStruct: a struct built per element is fresh per element.
+func (c *Ctx) ruleLoopCarriedStruct(rule string, pkgs []string, min int) {
+	r := c.R
+	r.Rule(rule, "per-element freshness: when a loop copies a local struct variable into a collection (append of its value, element store, or map update), the variable is declared inside the loop iteration or is completely overwritten earlier in the same iteration — a variable declared once outside the loop keeps the fields a previous element set and the current one leaves unset (optional sub-messages, accumulated lists)", min)
+	for _, short := range pkgs {
+		for _, fn := range c.P.FuncsIn(short) {
+			if fn.Blocks == nil {
+				continue
+			}
+			// scope: the API/config conversion code (not, e.g., the zebra client)
+			if file := c.P.Pos(ir.Outer(fn).Pos()); strings.Contains(file, "zclient.go") || strings.Contains(file, "zapi") {
+				continue
+			}
+			n := 0
+			for _, b := range fn.Blocks {
+				loop := sccOf(b)
+				if len(loop) == 0 {
+					continue
+				}
+				for _, in := range b.Instrs {
+					// the value copied: a load of a whole local struct
+					var copied []*ssa.UnOp
+					switch x := in.(type) {
+					case *ssa.Store:
+						if u, ok := x.Val.(*ssa.UnOp); ok {
+							copied = append(copied, u)
+						}
+					case *ssa.MapUpdate:
+						if u, ok := x.Value.(*ssa.UnOp); ok {
+							copied = append(copied, u)
+						}
+					}
+					for _, u := range copied {
+						al, ok := u.X.(*ssa.Alloc)
+						if !ok || u.Op != token.MUL {
+							continue
+						}
+						if _, isStruct := ir.Deref(al.Type()).Underlying().(*types.Struct); !isStruct {
+							continue
+						}
+						st, ok := in.(*ssa.Store)
+						if ok {
+							// only stores into collections (element of a slice / varargs array), not into another local
+							if _, isIdx := st.Addr.(*ssa.IndexAddr); !isIdx {
+								continue
+							}
+						}
+						n++
+						fk := ir.OuterKey(fn)
+						cons := fmt.Sprintf("copies %s into a collection #%d", al.Comment, n)
+						if loop[al.Block()] {
+							r.Ok(rule, fk, cons, c.P.InstrPos(in), "declared inside the loop iteration")
+							continue
+						}
+						// whole-struct overwrite inside the loop that dominates the copy
+						fresh := false
+						for _, ref := range *al.Referrers() {
+							if ws, ok := ref.(*ssa.Store); ok && ws.Addr == ssa.Value(al) && loop[ws.Block()] && dominatesInstr(ws, in) {
+								fresh = true
+							}
+						}
+						if fresh {
+							r.Ok(rule, fk, cons, c.P.InstrPos(in), "overwritten as a whole earlier in the iteration")
+						} else {
+							r.Bad(rule, fk, cons, c.P.InstrPos(in), "the struct is declared outside the loop and only partly reassigned per element: fields that the current element leaves unset keep the values of an earlier element")
+						}
+					}
+				}
+			}
+		}
+	}
+}
+
+// ruleConfedPair: switches over AS-path segment types treat the two confederation types in the same switch.
+func (c *Ctx) ruleConfedPair(rule string) {
+	r := c.R
+	r.Rule(rule, "sibling agreement over AS_PATH segment types: every switch that names one of the confederation segment types (AS_CONFED_SEQUENCE, AS_CONFED_SET) names the other one too — a confederation set that silently falls into the default branch is classified like an AS_SET (origin not found, length counted, loop not seen)", 8)
+	for _, short := range []string{"internal/pkg/table", "pkg/packet/bgp", "pkg/server"} {
+		for _, fn := range c.P.FuncsIn(short) {
+			if fn.Parent() != nil {
+				continue
+			}
+			info := c.infoFor(fn)
+			body := funcBody(fn)
+			if info == nil || body == nil {
+				continue
+			}
+			n := 0
+			ast.Inspect(body, func(x ast.Node) bool {
+				sw, ok := x.(*ast.SwitchStmt)
+				if !ok {
+					return true
+				}
+				seq, set := false, false
+				for _, st := range sw.Body.List {
+					for _, e := range st.(*ast.CaseClause).List {
+						ast.Inspect(e, func(y ast.Node) bool {
+							if id, ok := y.(*ast.Ident); ok {
+								if k, ok := info.Uses[id].(*types.Const); ok {
+									switch k.Name() {
+									case "BGP_ASPATH_ATTR_TYPE_CONFED_SEQ":
+										seq = true
+									case "BGP_ASPATH_ATTR_TYPE_CONFED_SET":
+										set = true
+									}
+								}
+							}
+							return true
+						})
+					}
+				}
+				if !seq && !set {
+					return true
+				}
+				n++
+				fk := ir.FuncKey(fn)
+				cons := fmt.Sprintf("segment-type switch #%d", n)
+				if seq && set {
+					r.Ok(rule, fk, cons, c.P.Pos(sw.Pos()), "names both confederation types")
+				} else {
+					r.Bad(rule, fk, cons, c.P.Pos(sw.Pos()), fmt.Sprintf("names AS_CONFED_SEQUENCE=%v AS_CONFED_SET=%v: one confederation segment type falls into the default branch", seq, set))
+				}
+				return true
+			})
+		}
+	}
+}
+
+// ruleROADeleteGuarded: a withdrawal removes only the record it names.
+func (c *Ctx) ruleROADeleteGuarded(rule string) {
+	r := c.R
+	r.Rule(rule, "ROATable.Delete changes the table only for the record it was asked to withdraw: every store to a bucket's entries and every removal from the prefix tree inside Delete lies on the true edge of ROA.Equal(held, withdrawn)", 1)
+	fn := c.P.Func("(*internal/pkg/table.ROATable).Delete")
+	if fn == nil {
+		r.Undec(rule, "-", "anchor:ROATable.Delete", "-", "not found")
+		return
+	}
+	fk := ir.FuncKey(fn)
+	var eqIfs []*ssa.If
+	for _, call := range staticCallsOf(fn, false, "Equal") {
+		for _, ref := range *call.Referrers() {
+			if i, ok := ref.(*ssa.If); ok {
+				eqIfs = append(eqIfs, i)
+			}
+		}
+	}
+	n := 0
+	for _, b := range fn.Blocks {
+		for _, in := range b.Instrs {
+			mut := ""
+			switch x := in.(type) {
+			case *ssa.Store:
+				if fa, ok := x.Addr.(*ssa.FieldAddr); ok && fieldOfName(fa) == "entries" {
+					mut = "store to entries"
+				}
+			case *ssa.Call:
+				if x.Call.IsInvoke() && x.Call.Method.Name() == "Delete" || x.Call.StaticCallee() != nil && x.Call.StaticCallee().Name() == "Delete" && x.Call.StaticCallee() != fn {
+					mut = "tree.Delete"
+				}
+			}
+			if mut == "" {
+				continue
+			}
+			n++
+			guarded := false
+			for _, i := range eqIfs {
+				if edgeDominates(i.Block(), 0, b) {
+					guarded = true
+				}
+			}
+			cons := fmt.Sprintf("%s #%d", mut, n)
+			if guarded {
+				r.Ok(rule, fk, cons, c.P.InstrPos(in), "only after Equal matched")
+			} else {
+				r.Bad(rule, fk, cons, c.P.InstrPos(in), "the table is changed before (or without) checking that the held record equals the withdrawn one: withdrawing an unknown record removes an unrelated one")
+			}
+		}
+	}
+	if n == 0 {
+		r.Bad(rule, fk, "removal", c.P.Pos(fn.Pos()), "Delete no longer removes anything")
+	}
+}
+
+// ruleAs4PathWidthIndependent: the AS4_PATH codec never consults the session's 2-octet-AS option.
+func (c *Ctx) ruleAs4PathWidthIndependent(rule string) {
+	r := c.R
+	r.Rule(rule, "AS4_PATH is always carried with 4-octet AS numbers: the marshalling options received by PathAttributeAs4Path.DecodeFromBytes / Serialize are not forwarded to any function that reads MarshallingOption.Use2ByteAS (on a session with a 2-octet peer — the only place AS4_PATH occurs — that option is true)", 2)
+	mo := c.P.NamedType("pkg/packet/bgp", "MarshallingOption")
+	readsWidth := func(fn *ssa.Function) bool {
+		for _, b := range fn.Blocks {
+			for _, in := range b.Instrs {
+				if fa, ok := in.(*ssa.FieldAddr); ok && ir.NamedOf(ir.Deref(fa.X.Type())) == mo && fieldVarOf(fa).Name() == "Use2ByteAS" {
+					return true
+				}
+			}
+		}
+		return false
+	}
+	for _, name := range []string{"(*pkg/packet/bgp.PathAttributeAs4Path).DecodeFromBytes", "(*pkg/packet/bgp.PathAttributeAs4Path).Serialize"} {
+		fn := c.P.Func(name)
+		if fn == nil {
+			r.Undec(rule, name, "anchor", "-", "not found")
+			continue
+		}
+		// forward propagation of the options parameter through static calls
+		bad := ""
+		seen := map[*ssa.Function]bool{}
+		var walk func(f *ssa.Function, opt ssa.Value, d int)
+		walk = func(f *ssa.Function, opt ssa.Value, d int) {
+			if seen[f] || d > 6 || bad != "" {
+				return
+			}
+			seen[f] = true
+			if readsWidth(f) && f != fn {
+				bad = ir.FuncKey(f)
+				return
+			}
+			derived := map[ssa.Value]bool{opt: true}
+			for changed := true; changed; {
+				changed = false
+				for _, b := range f.Blocks {
+					for _, in := range b.Instrs {
+						v, ok := in.(ssa.Value)
+						if !ok || derived[v] {
+							continue
+						}
+						switch x := in.(type) {
+						case *ssa.Slice:
+							if derived[x.X] {
+								derived[v] = true
+								changed = true
+							}
+						case *ssa.Phi:
+							for _, e := range x.Edges {
+								if derived[e] {
+									derived[v] = true
+									changed = true
+								}
+							}
+						case *ssa.Call:
+							if bi, ok := x.Call.Value.(*ssa.Builtin); ok && bi.Name() == "append" && derived[x.Call.Args[0]] {
+								derived[v] = true
+								changed = true
+							}
+						}
+					}
+				}
+			}
+			for _, b := range f.Blocks {
+				for _, in := range b.Instrs {
+					call, ok := in.(ssa.CallInstruction)
+					if !ok {
+						continue
+					}
+					callee := call.Common().StaticCallee()
+					if callee == nil || callee.Blocks == nil || !c.P.InModule(callee) {
+						continue
+					}
+					for i, a := range call.Common().Args {
+						if derived[a] && i < len(callee.Params) {
+							walk(callee, callee.Params[i], d+1)
+						}
+					}
+				}
+			}
+		}
+		var opt ssa.Value
+		for _, p := range fn.Params {
+			if sl, ok := p.Type().Underlying().(*types.Slice); ok && ir.NamedOf(ir.Deref(sl.Elem())) == mo {
+				opt = p
+			}
+		}
+		if opt == nil {
+			r.Ok(rule, name, "options", c.P.Pos(fn.Pos()), "takes no marshalling options")
+			continue
+		}
+		if readsWidth(fn) {
+			bad = name
+		} else {
+			walk(fn, opt, 0)
+		}
+		if bad == "" {
+			r.Ok(rule, name, "options", c.P.Pos(fn.Pos()), "not forwarded to a reader of Use2ByteAS")
+		} else {
+			r.Bad(rule, name, "options", c.P.Pos(fn.Pos()), "the session options reach "+bad+", which reads Use2ByteAS: on a 2-octet session the 4-octet AS4_PATH is walked with a 2-octet stride and every well-formed AS4_PATH is rejected")
+		}
+	}
+}
+
+// ruleRestartFlagCleared: the end of a peer's restart clears the long-lived flag on every path.
+func (c *Ctx) ruleRestartFlagCleared(rule string) {
+	r := c.R
+	r.Rule(rule, "peer.stopPeerRestarting clears longLivedRunning on every path to its return: the restart-timer expiry does nothing while the flag is set, so a flag left over from a previous restart turns the next expiry into a no-op and stale routes are kept for ever", 1)
+	fn := c.P.Func("(*pkg/server.peer).stopPeerRestarting")
+	if fn == nil {
+		r.Undec(rule, "-", "anchor:stopPeerRestarting", "-", "not found")
+		return
+	}
+	fk := ir.FuncKey(fn)
+	marks := map[*ssa.BasicBlock]bool{}
+	for _, b := range fn.Blocks {
+		for _, in := range b.Instrs {
+			call, ok := in.(*ssa.Call)
+			if !ok || call.Call.StaticCallee() == nil || call.Call.StaticCallee().Name() != "Store" {
+				continue
+			}
+			fa, ok := call.Call.Args[0].(*ssa.FieldAddr)
+			if !ok || fieldOfName(fa) != "longLivedRunning" {
+				continue
+			}
+			if k, ok := call.Call.Args[1].(*ssa.Const); ok && k.Value != nil && k.Value.String() == "false" {
+				marks[b] = true
+			}
+		}
+	}
+	if len(marks) == 0 {
+		r.Bad(rule, fk, "clears longLivedRunning", c.P.Pos(fn.Pos()), "the flag is never cleared")
+		return
+	}
+	if mustPassThrough(fn.Blocks[0], func(b *ssa.BasicBlock) bool { return marks[b] }) {
+		r.Ok(rule, fk, "clears longLivedRunning", c.P.Pos(fn.Pos()), "on every path")
+	} else {
+		r.Bad(rule, fk, "clears longLivedRunning", c.P.Pos(fn.Pos()), "some path returns without clearing the flag (the clear is conditional)")
+	}
+}
+
+// unconditionalInLoop: between the innermost loop head dominating the instruction and the instruction there is no branch.
+func unconditionalInLoop(fn *ssa.Function, at *ssa.BasicBlock) (bool, *ssa.BasicBlock) {
+	var header *ssa.BasicBlock
+	for _, h := range fn.Blocks {
+		back := false
+		for _, p := range h.Preds {
+			if h.Dominates(p) {
+				back = true
+			}
+		}
+		if back && h.Dominates(at) && (header == nil || header.Dominates(h)) {
+			header = h
+		}
+	}
+	if header == nil {
+		return false, nil
+	}
+	for b := at.Idom(); b != nil && b != header; b = b.Idom() {
+		if _, ok := b.Instrs[len(b.Instrs)-1].(*ssa.If); ok {
+			return false, b
+		}
+	}
+	return true, nil
+}
+
+// ruleSoftResetInCoversAll: soft reset in replays every addressed peer.
+func (c *Ctx) ruleSoftResetInCoversAll(rule string) {
+	r := c.R
+	r.Rule(rule, "soft reset in re-evaluates every addressed peer: in softResetIn the propagateUpdate call runs for each peer of the loop with no condition in between — in particular not only for Established peers: a peer that is down but graceful-restarting still has its routes in the Loc-RIB, and they must follow the new import policy too", 1)
+	fn := c.P.Func("(*pkg/server.BgpServer).softResetIn")
+	if fn == nil {
+		r.Undec(rule, "-", "anchor:softResetIn", "-", "not found")
+		return
+	}
+	fk := ir.FuncKey(fn)
+	calls := staticCallsOf(fn, false, "propagateUpdate")
+	if len(calls) == 0 {
+		r.Bad(rule, fk, "replay", c.P.Pos(fn.Pos()), "no replay")
+		return
+	}
+	for _, call := range calls {
+		ok, at := unconditionalInLoop(fn, call.Block())
+		if ok {
+			r.Ok(rule, fk, "replay for every peer", c.P.InstrPos(call), "unconditional inside the peer loop")
+		} else if at != nil {
+			r.Bad(rule, fk, "replay for every peer", c.P.InstrPos(call), "a condition at "+c.P.InstrPos(at.Instrs[len(at.Instrs)-1])+" can skip the replay for a peer: that peer's routes keep the old policy's verdict")
+		} else {
+			r.Bad(rule, fk, "replay for every peer", c.P.InstrPos(call), "the replay is not inside the loop over the addressed peers")
+		}
+	}
+}
+
+// ruleImportTestTotal: the VRF import test looks at every community before saying no.
+func (c *Ctx) ruleImportTestTotal(rule string) {
+	r := c.R
+	r.Rule(rule, "CanImportToVrf answers false only after the loop over the route's extended communities has finished: inside the loop the only return is 'true' on a matching transitive route target (a community that is not a route target, or not transitive, is skipped)", 1)
+	fn := c.P.Func("internal/pkg/table.CanImportToVrf")
+	if fn == nil {
+		r.Undec(rule, "-", "anchor:CanImportToVrf", "-", "not found")
+		return
+	}
+	fk := ir.FuncKey(fn)
+	bad := ""
+	nret := 0
+	for _, b := range fn.Blocks {
+		ret, ok := b.Instrs[len(b.Instrs)-1].(*ssa.Return)
+		if !ok {
+			continue
+		}
+		nret++
+		k, isK := ret.Results[0].(*ssa.Const)
+		if isK && k.Value != nil && k.Value.String() == "false" {
+			// reachable from inside the loop without passing the loop head's exit?
+			for _, h := range fn.Blocks {
+				isHeader := false
+				for _, p := range h.Preds {
+					if h.Dominates(p) {
+						isHeader = true
+					}
+				}
+				if !isHeader {
+					continue
+				}
+				loop := sccOf(h)
+				for _, p := range b.Preds {
+					if loop[p] && p != h {
+						bad = c.P.InstrPos(ret)
+					}
+				}
+			}
+		}
+	}
+	if bad != "" {
+		r.Bad(rule, fk, "false only after the loop", bad, "the import test gives up inside the loop: a route whose matching route target comes after some other extended community (encapsulation, colour, …) is not imported")
+	} else {
+		r.Ok(rule, fk, "false only after the loop", c.P.Pos(fn.Pos()), fmt.Sprintf("%d returns", nret))
+	}
+}
+
+// ruleWithdrawalsFirst: soft reset out hands over withdrawals before advertisements.
+func (c *Ctx) ruleWithdrawalsFirst(rule string) {
+	r := c.R
+	r.Rule(rule, "in soft reset out the list handed to updateRoutes / the sender is 'withdrawals for newly rejected routes' followed by 'current advertisements': per NLRI the last action wins, so an advertisement for a prefix must come after a withdrawal that names the same prefix (VRF peers: a foreign VPN route with the same plain prefix)", 1)
+	so := c.P.Func("(*pkg/server.BgpServer).softResetOut")
+	if so == nil {
+		r.Undec(rule, "-", "anchor:softResetOut", "-", "not found")
+		return
+	}
+	fk := ir.FuncKey(so)
+	n := 0
+	for _, an := range so.AnonFuncs {
+		if len(an.Params) < 2 {
+			continue
+		}
+		pathsParam := an.Params[0]
+		tracesTo := func(v ssa.Value, pred func(ssa.Value) bool) bool {
+			seen := map[ssa.Value]bool{}
+			var walk func(v ssa.Value) bool
+			walk = func(v ssa.Value) bool {
+				if seen[v] {
+					return false
+				}
+				seen[v] = true
+				if pred(v) {
+					return true
+				}
+				switch x := v.(type) {
+				case *ssa.Phi:
+					for _, e := range x.Edges {
+						if walk(e) {
+							return true
+						}
+					}
+				case *ssa.Call:
+					if bi, ok := x.Call.Value.(*ssa.Builtin); ok && bi.Name() == "append" {
+						return walk(x.Call.Args[0])
+					}
+				case *ssa.Slice:
+					return walk(x.X)
+				case *ssa.UnOp:
+					// a variable spilled to memory because a nested closure captures it
+					if al, ok := x.X.(*ssa.Alloc); ok {
+						for _, ref := range *al.Referrers() {
+							if st, ok := ref.(*ssa.Store); ok && st.Addr == ssa.Value(al) && walk(st.Val) {
+								return true
+							}
+						}
+					}
+				}
+				return false
+			}
+			return walk(v)
+		}
+		isParam := func(v ssa.Value) bool { return v == ssa.Value(pathsParam) }
+		isMake := func(v ssa.Value) bool { _, ok := v.(*ssa.MakeSlice); return ok }
+		for _, b := range an.Blocks {
+			for _, in := range b.Instrs {
+				call, ok := in.(*ssa.Call)
+				if !ok {
+					continue
+				}
+				bi, ok := call.Call.Value.(*ssa.Builtin)
+				if !ok || bi.Name() != "append" || len(call.Call.Args) != 2 {
+					continue
+				}
+				a0, a1 := call.Call.Args[0], call.Call.Args[1]
+				p0, p1 := tracesTo(a0, isParam), tracesTo(a1, isParam)
+				m0, m1 := tracesTo(a0, isMake) && !p0, tracesTo(a1, isMake) && !p1
+				if !(p0 && m1 || p1 && m0) {
+					continue
+				}
+				n++
+				if m0 && p1 {
+					r.Ok(rule, fk, "merge of withdrawals and advertisements", c.P.InstrPos(call), "append(withdrawals, paths...)")
+				} else {
+					r.Bad(rule, fk, "merge of withdrawals and advertisements", c.P.InstrPos(call), "advertisements come before the withdrawals: a withdrawal that names the same NLRI as an advertisement (a filtered foreign-VPN route localised to the same plain prefix) is applied last and removes the route the peer should keep")
+				}
+			}
+		}
+	}
+	if n == 0 {
+		r.Bad(rule, fk, "merge of withdrawals and advertisements", c.P.Pos(so.Pos()), "soft reset out no longer merges withdrawals with the advertisements")
+	}
+}
